@@ -20,6 +20,21 @@ def collect (attached : List GSig) : List GSig :=
   | some p => attached.filter (fun s => s.prio = p)
   | none => []
 
+/-- Sibling-calm, a weaker hypothesis than `calmStep`: when a signal is dispatched while another signal *of the
+same priority* is pending, its handlers enqueue nothing more urgent than it (`calmStep` asks this whenever any
+other signal is pending). -/
+def sibCalmStep {σ : Type} (P : Prog σ) (m : MState σ) : Bool :=
+  match m.queue with
+  | [] => true
+  | s :: rest => rest.all (fun x => decide (x.prio ≠ s.prio)) || (P m.st s).2.all (fun e => decide (s.prio ≤ e.prio))
+
+/-- sibling-calm along the first `n` steps of the MainLoop run -/
+def sibCalmRun {σ : Type} (P : Prog σ) : Nat → MState σ → Bool
+  | 0, _ => true
+  | n + 1, m => sibCalmStep P m && (match mstep P m with
+    | some m' => sibCalmRun P n m'
+    | none => true)
+
 /-- The two loops are in step: same program state, same dispatch history, the `MainLoop` queue is the stable
 priority sort of GLib's attached sources (same pending signals), and the rest of GLib's current batch is what
 `MainLoop` is going to take next: it heads the queue and nothing pending is more urgent than any of it. -/
